@@ -36,7 +36,7 @@ EVENTS = ["train_start", "epoch_start", "batch_start", "batch_end", "epoch_end",
 def tlc_sets(tier):
     if tier == "quick":
         return [(1, 2, 2), (2, 1, 1), (0, 1, 3), (1, 3, 1), (1, 1, 2)]
-    return [(1, 2, 2), (2, 1, 1), (0, 1, 3), (1, 3, 1), (0, 2, 2), (1, 1, 4), (3, 3, 2), (0, 0, 1), (1, 3, 2), (2, 3, 3), (0, 3, 1), (1, 2, 3)]
+    return [(1, 2, 2), (2, 1, 1), (0, 1, 3), (1, 3, 1), (0, 2, 2), (1, 1, 4), (3, 3, 2), (0, 0, 1), (1, 3, 2), (2, 3, 3), (0, 3, 1), (1, 2, 3), (0, 3, 2), (1, 4, 1), (2, 4, 2), (0, 2, 4), (1, 1, 5), (4, 3, 1)]
 
 
 def bound(tier):
